@@ -35,6 +35,8 @@ def import_repo():
     if REPO not in sys.path:
         sys.path.insert(0, REPO)
     os.environ[GUARD] = '1'
+    import warnings
+    warnings.filterwarnings('ignore')           # (cryptography's deprecation notices for finite-field DH)
     import logging
     logging.indent = None
     logging.disable(logging.CRITICAL)
